@@ -156,10 +156,19 @@ def expected(scenario):
     return model
 
 
+DEC_DELAYS = [0.1, 0.2, 0.3, 0.7, 0.9, 1.1]
+DEC_GRID = [-0.7, -0.1, 0, 0.1, 0.3, 0.9, 1.3, 2.7]
+DEC_STARTS = [0.2, 0.3, -0.1, 0]
+
+
 class Gen:
-    def __init__(self, rng):
+    def __init__(self, rng, decimal=False):
         self.rng = rng
         self.n = 0
+        # decimal (non-dyadic) dates: the model mirrors the kernel's float operations exactly,
+        # so any extra round trip through a relative delay shows up as a one-ulp difference
+        self.delays = DEC_DELAYS if decimal else DELAYS
+        self.grid = DEC_GRID if decimal else GRID
 
     def fresh(self, prefix):
         self.n += 1
@@ -171,11 +180,11 @@ class Gen:
         if r < 0.2:
             return now
         if r < 0.45:
-            return now + rng.choice(DELAYS)
+            return now + rng.choice(self.delays)
         if r < 0.62:
-            return now - rng.choice(DELAYS)
+            return now - rng.choice(self.delays)
         if r < 0.97:
-            return rng.choice(GRID)
+            return rng.choice(self.grid)
         return "inf"
 
     def ops(self, now, depth, length):
@@ -186,7 +195,7 @@ class Gen:
         for _ in range(length):
             r = rng.random()
             if r < 0.25:
-                op = {"op": "sleep", "d": rng.choice(DELAYS + [0])}
+                op = {"op": "sleep", "d": rng.choice(self.delays + [0])}
             elif r < 0.33:
                 op = {"op": "postpone", "k": rng.randint(1, 3)}
             elif r < 0.4:
@@ -206,12 +215,12 @@ class Gen:
                     {"op": "spawn", "into": None, "actor": child}]}
                 op["body"][0]["into"] = op["label"]
             else:
-                op = {"op": "sleep", "d": rng.choice(DELAYS)}
+                op = {"op": "sleep", "d": rng.choice(self.delays)}
             probe = Model()
             end = probe.op("x", op, now)
             if end is None or end == math.inf:
                 # can never resume (or only at infinity): put it under a guard
-                guard = rng.choice(DELAYS)
+                guard = rng.choice(self.delays)
                 op = {"op": "scope", "label": self.fresh("G"),
                       "until": {"k": "delay", "d": guard}, "children": [], "body": [op]}
                 end = Model().op("x", op, now)
@@ -223,17 +232,17 @@ class Gen:
         rng = self.rng
         r = rng.random()
         if r < 0.3:
-            child["after"] = rng.choice(DELAYS + [0])
+            child["after"] = rng.choice(self.delays + [0])
         elif r < 0.6:
-            child["at"] = rng.choice([now, now + rng.choice(DELAYS)] +
-                                     [g for g in GRID if g >= now])
+            child["at"] = rng.choice([now, now + rng.choice(self.delays)] +
+                                     [g for g in self.grid if g >= now])
 
     def scope(self, now, depth):
         rng = self.rng
         op = {"op": "scope", "label": self.fresh("S"), "children": []}
         r = rng.random()
         if r < 0.25:
-            op["until"] = {"k": "delay", "d": rng.choice(DELAYS)}
+            op["until"] = {"k": "delay", "d": rng.choice(self.delays)}
         elif r < 0.45:
             op["until"] = {"k": "time", "op": rng.choice([">=", "=="]), "t": self.date(now)}
             if op["until"]["t"] == "inf":
@@ -251,8 +260,9 @@ class Gen:
 
 
 def generate(rng, tier):
-    gen = Gen(rng)
-    start = rng.choice(STARTS)
+    decimal = rng.random() < 0.3
+    gen = Gen(rng, decimal)
+    start = rng.choice(DEC_STARTS if decimal else STARTS)
     actors = []
     for _ in range(rng.randint(1, 6)):
         ops, _ = gen.ops(start, 0, rng.randint(1, 6))
